@@ -106,6 +106,8 @@ def show(e, parent=0, right=False):
         return f'{inner}["{e[2]}"]'
     if k in ("any", "all"):
         return f"{k}({show(e[1])})"
+    if k == "output":
+        return f"{e[1]}.output"
     if k == "raw":
         return e[1]
     if k == "paren":
@@ -343,6 +345,8 @@ def ev(e, env: Env):
         return Sig(e[2], b.get(e[2], 0))
     if k in ("any", "all"):
         return Quant(k, ev(e[1], env))
+    if k == "output":
+        return Bun(env.entity_output(e[1]))
     if k == "raw":
         return e[2](env)
     raise ValueError(e)
@@ -487,6 +491,8 @@ def subst_expr(e, consts=None, names=None):
         return ("var", names.get(e[1], e[1]))
     if k == "read":
         return ("read", names.get(e[1], e[1]))
+    if k == "output":
+        return ("output", names.get(e[1], e[1]))
     if k in ("lit", "proj"):
         t = e[1] if k == "lit" else e[2]
         if isinstance(t, tuple) and t[0] == "typeof":
